@@ -50,8 +50,8 @@ Print Assumptions c08_tail_cut_agrees.
 
 Example c08_paths_agree_example :
   valid_log ex_log = true /\ wf_refs ex_log = true /\ cut_point ex_log 58 = Some 60
-  /\ filter mr_keep ex_log = firstn 9 (filter mr_keep ex_log) ++ ex_tail
-  /\ firstn 9 (filter mr_keep ex_log) <> []
+  /\ filter mr_keep ex_log = firstn 6 (filter mr_keep ex_log) ++ ex_tail
+  /\ firstn 6 (filter mr_keep ex_log) <> []
   /\ (16 <= count_msgs_upto 60 ex_tail)%nat
   /\ tail_cut ex_tail (head_seq ex_log) 58 = Some 60.
 Proof. exact paths_agree_example. Qed.
